@@ -9,7 +9,8 @@
    small t := width t <= usize::MAX (below saturation of Final::bit_width; anything larger
               needs a buffer of 2^61 bytes). *)
 From RS Require Import Lib.Tac Lib.Outcome Lib.Bits Ty.Ty
-  Value.ValueModel Value.ValueBits Value.ValueRefine Value.ValueCons Value.ValueInv Value.ValuePrune.
+  Value.ValueModel Value.ValueBits Value.ValueRefine Value.ValueCons Value.ValueInv Value.ValuePrune
+  Value.ValueWords Value.ValueEos Value.ValueWord Value.ValueBuffer.
 Import ListNotations.
 Local Open Scope N_scope.
 
@@ -221,3 +222,141 @@ Qed.
 Example C10_prune_example :
   prune (mkV [171] 4 (word_ty 2)) (Prod (Prod One Bit) One) = Ok (Some (mkV [171] 5 (Prod (Prod One Bit) One))).  (* shares the buffer *)
 Proof. vm_compute. reflexivity. Qed.
+
+(* ---- 6. word and byte-array constructors build the intended element (phase 2) ----
+   word_sval k bits = the element of 2^(2^k) whose bits, most significant first, are `bits`
+   (for 2^k bits: compact_enc (word_sval k bits) = bits). *)
+
+Theorem C10_word_sval_bits : forall k bits, length bits = (2 ^ k)%nat ->
+  has_ty (word_sval k bits) (word_ty k) = true /\ compact_enc (word_sval k bits) = bits /\
+  of_padded (word_ty k) bits = word_sval k bits.
+Proof. exact (fun k bits H => conj (word_sval_has_ty k bits) (conj (word_sval_compact k bits H) (of_padded_word k bits H))). Qed.
+Print Assumptions C10_word_sval_bits.
+
+(* Value::u1 .. u128 (k = 0 .. 7): WF, of the word type, the bits of the integer MSB first *)
+Theorem C10_word_int_abs : forall k n v, (k <= 7)%nat -> v_word_int k n = Ok v ->
+  WF v /\ vty v = word_ty k /\ vbits v = bits_be (2 ^ k) n /\
+  absv v = word_sval k (bits_be (2 ^ k) n).
+Proof. exact v_word_int_abs. Qed.
+Print Assumptions C10_word_int_abs.
+
+(* Value::u256 / u512 (and any 2^(k-3)-byte array taken as is) *)
+Theorem C10_word_bytes_abs : forall k bytes, (3 <= k)%nat -> (k <= 63)%nat -> bytes_ok bytes ->
+  length bytes = (2 ^ (k - 3))%nat ->
+  let v := v_word_bytes k bytes in
+  WF v /\ vty v = word_ty k /\ vbits v = bits_of_bytes bytes /\
+  absv v = word_sval k (bits_of_bytes bytes).
+Proof. exact v_word_bytes_abs. Qed.
+Print Assumptions C10_word_bytes_abs.
+
+(* Value::from_byte_array: 2^m bytes paired up level by level *)
+Theorem C10_from_byte_array_abs : forall m bytes, (m + 3 <= 63)%nat -> bytes_ok bytes ->
+  length bytes = (2 ^ m)%nat ->
+  exists v, v_from_byte_array bytes = Ok v /\ WF v /\ vty v = word_ty (m + 3) /\
+            vbits v = bits_of_bytes bytes /\ absv v = word_sval (m + 3) (bits_of_bytes bytes).
+Proof. exact v_from_byte_array_abs. Qed.
+Print Assumptions C10_from_byte_array_abs.
+
+Theorem C10_from_byte_array_not_pow2 : v_from_byte_array [1; 2; 3] = Panic 7.
+Proof. exact v_from_byte_array_three. Qed.
+Print Assumptions C10_from_byte_array_not_pow2.
+
+(* ---- 7. end of stream in from_compact_bits (phase 2) ---- *)
+
+(* the decoder is the specification decoder of Ty.v: a value with the exact rest, or
+   EarlyEndOfStream; never a value from a short stream, never a panic, never out of fuel *)
+Theorem C10_from_compact_bits_total : forall t bits, small t ->
+  match of_compact t bits with
+  | Some (s, rest) => exists v, from_compact_bits bits t = Ok (v, rest) /\ WF v /\ vty v = t /\ absv v = s
+  | None => from_compact_bits bits t = Err EarlyEOS
+  end.
+Proof. exact from_compact_bits_total. Qed.
+Print Assumptions C10_from_compact_bits_total.
+
+(* failure exactly when no value's encoding is a prefix of the stream ... *)
+Theorem C10_of_compact_none_iff : forall t bits,
+  of_compact t bits = None <-> (forall s rest, has_ty s t = true -> bits <> compact_enc s ++ rest).
+Proof. exact of_compact_none_iff. Qed.
+Print Assumptions C10_of_compact_none_iff.
+
+(* ... and then the stream is a proper prefix of a valid encoding (too short, never malformed) *)
+Theorem C10_of_compact_none_extends : forall t bits, of_compact t bits = None ->
+  exists ext s, ext <> [] /\ has_ty s t = true /\ bits ++ ext = compact_enc s.
+Proof. exact of_compact_none_extends. Qed.
+Print Assumptions C10_of_compact_none_extends.
+
+(* how many bits were needed: cneed follows the path the stream selects; a success consumed
+   exactly cneed bits, a failure starved at bit number |bits| + 1 *)
+Theorem C10_cneed_spec : forall t bits,
+  match of_compact t bits with
+  | Some (_, rest) => (cneed t bits + length rest = length bits)%nat
+  | None => cneed t bits = S (length bits)
+  end.
+Proof. exact cneed_spec. Qed.
+Print Assumptions C10_cneed_spec.
+
+Theorem C10_from_compact_bits_eos_iff : forall t bits, small t ->
+  (from_compact_bits bits t = Err EarlyEOS <-> (length bits < cneed t bits)%nat).
+Proof. exact from_compact_bits_eos_iff. Qed.
+Print Assumptions C10_from_compact_bits_eos_iff.
+
+Theorem C10_from_compact_bits_consumed : forall t bits v rest, small t ->
+  from_compact_bits bits t = Ok (v, rest) -> (cneed t bits + length rest = length bits)%nat.
+Proof. exact from_compact_bits_consumed. Qed.
+Print Assumptions C10_from_compact_bits_consumed.
+
+(* ---- 8. small specifications (phase 2) ---- *)
+
+Theorem C10_is_of_type : forall v t, (is_of_type v t = true <-> vty v = t) /\
+  (is_of_type v t = true -> has_ty (absv v) t = true).
+Proof. exact is_of_type_spec. Qed.
+Print Assumptions C10_is_of_type.
+
+Theorem C10_padded_len : forall v, WF v ->
+  padded_len v = width (vty v) /\
+  (exists p, iter_padded v = Ok p /\ N.of_nat (length p) = padded_len v) /\
+  (exists c, compact_len v = Ok c /\ c <= padded_len v).
+Proof. exact padded_len_spec. Qed.
+Print Assumptions C10_padded_len.
+
+Theorem C10_zero_serialises_to_zeros : forall t, small t ->
+  exists n, iter_compact (v_zero t) = Ok (repeat false n) /\
+            iter_padded (v_zero t) = Ok (repeat false (N.to_nat (width t))).
+Proof. exact v_zero_serialises_to_zeros. Qed.
+Print Assumptions C10_zero_serialises_to_zeros.
+
+(* ---- 9. buffers and SHA-256 contexts (phase 2) ----
+   buffer_sval n data: per component k = n .. 0 of buffer_ty n, Some(the next 2^k bytes) when bit k
+   of the length is set, None otherwise. *)
+
+Theorem C10_buffer8_abs : forall n data, small (buffer_ty n) -> bytes_ok data ->
+  if (2 ^ S n <=? length data)%nat then v_buffer8 n data = Ok None
+  else exists v, v_buffer8 n data = Ok (Some v) /\ WF v /\ vty v = buffer_ty n /\
+                 vbits v = buffer_bits n data /\ absv v = buffer_sval n data.
+Proof. exact v_buffer8_abs. Qed.
+Print Assumptions C10_buffer8_abs.
+
+(* Value::ctx8 = product(buffer8(5, buffer), product(u64 count, u256 midstate)) *)
+Theorem C10_ctx8_abs : forall midstate bytes_hashed buffer, bytes_ok midstate -> length midstate = 32%nat ->
+  bytes_ok buffer ->
+  if (64 <=? length buffer)%nat then v_ctx8 midstate bytes_hashed buffer = Ok None
+  else exists v, v_ctx8 midstate bytes_hashed buffer = Ok (Some v) /\ WF v /\ vty v = ctx8_ty /\
+         absv v = SP (buffer_sval 5 buffer)
+                     (SP (word_sval 6 (bits_be 64 bytes_hashed)) (word_sval 8 (bits_of_bytes midstate))).
+Proof. exact v_ctx8_abs. Qed.
+Print Assumptions C10_ctx8_abs.
+
+Example C10_buffer_example :
+  small (buffer_ty 5) /\
+  buffer_sval 1 [1; 2; 3] =
+    SP (SR (word_sval 4 (bits_of_bytes [1; 2]))) (SR (word_sval 3 (bits_of_bytes [3]))) /\
+  buffer_sval 1 [9] = SP (SL SU) (SR (word_sval 3 (bits_of_bytes [9]))) /\
+  v_buffer8 1 [1; 2; 3; 4] = Ok None.
+Proof. split; [exact small_buffer5|]. split; [reflexivity|]. split; reflexivity. Qed.
+
+(* the assert! of u1 / u2 / u4 fires exactly for arguments out of range *)
+Theorem C10_word_int_range : forall k n, (k <= 7)%nat ->
+  (exists v, v_word_int k n = Ok v) \/
+  ((k <= 2)%nat /\ 2 ^ (2 ^ N.of_nat k) <= n /\ v_word_int k n = Panic 4).
+Proof. exact v_word_int_range. Qed.
+Print Assumptions C10_word_int_range.
